@@ -38,6 +38,9 @@ def main():
         for j in js:
             if prop not in j.props:
                 j.props.append(prop)
+    if prop == "ALL":   # maintenance run over every job (not a registered check)
+        for j in js:
+            j.props.append("ALL")
     info = props.PROPS.get(prop, {})
     static = []
     for fn in info.get("static", []):
